@@ -11,6 +11,8 @@ use crate::pki::{self, Kind, Pool, Res};
 use crate::rng::{hex, unhex, Rng};
 use crate::Ctx;
 use bytes::Bytes;
+use bcder::encode::{PrimitiveContent, Values};
+use bcder::Mode;
 use rpki::ca::csr::{BgpsecCsr, RpkiCaCsr};
 use rpki::ca::idcert::IdCert;
 use rpki::ca::sigmsg::SignedMessage;
@@ -102,11 +104,19 @@ fn touch_key(k: &PublicKey) {
     let _ = k.to_subject_name();
 }
 
+/// writes the certificate again from its decoded fields (`TbsCert::encode_ref`), and the parts that have their own encoders
+fn reenc_cert(c: &Cert) {
+    let t: &rpki::repository::cert::TbsCert = c.as_ref();
+    let _ = t.encode_ref().to_captured(Mode::Der).len();
+    let _ = c.serial_number().encode().to_captured(Mode::Der).len();
+    let _ = c.validity().encode().to_captured(Mode::Der).len();
+}
+
 fn access(entry: &str, data: &[u8], re: bool) -> bool {
     let b = Bytes::copy_from_slice(data);
     let base = uri::Rsync::from_slice(b"rsync://h/m/d/").unwrap();
     match entry {
-        "cert" => Cert::decode(b).map(|c| { touch_cert(&c); if re { let _ = c.to_captured().len(); } }).is_ok(),
+        "cert" => Cert::decode(b).map(|c| { touch_cert(&c); if re { let _ = c.to_captured().len(); reenc_cert(&c); } }).is_ok(),
         "crl" => Crl::decode(b).map(|mut c| {
             let l = c.as_cert_list();
             let _ = (l.this_update(), l.next_update(), l.crl_number(), l.authority_key_identifier(), l.issuer(), l.is_stale());
@@ -114,7 +124,13 @@ fn access(entry: &str, data: &[u8], re: bool) -> bool {
             let _ = c.contains(Serial::from(1u64));
             c.cache_serials();
             let _ = c.contains(Serial::from(n as u64));
-            if re { let _ = c.to_captured().len(); }
+            if re {
+                let _ = c.to_captured().len();
+                // the value is written again from its fields, not from the kept octets
+                let _ = c.as_cert_list().encode_ref().to_captured(Mode::Der).len();
+                let _ = c.as_cert_list().revoked_certs().encode_ref().to_captured(Mode::Der).len();
+                let _ = c.as_cert_list().crl_number().encode().to_captured(Mode::Der).len();
+            }
         }).is_ok(),
         "mft" | "mftr" => Manifest::decode(b, entry == "mft").map(|m| {
             let c = m.content();
@@ -122,7 +138,11 @@ fn access(entry: &str, data: &[u8], re: bool) -> bool {
             let _ = c.iter().map(|e| (e.file().len(), e.hash().len())).count();
             let _ = c.iter_uris(&base).map(|(u, h)| (u.as_slice().len(), h.as_slice().len(), h.verify(b"x").is_ok())).count();
             touch_cert(m.cert());
-            if re { let _ = m.to_captured().len(); let _ = m.cert().to_captured().len(); }
+            if re {
+                let _ = m.to_captured().len(); let _ = m.cert().to_captured().len();
+                let _ = m.content().encode_ref().to_captured(Mode::Der).len();
+                reenc_cert(m.cert());
+            }
         }).is_ok(),
         "roa" | "roar" => Roa::decode(b, entry == "roa").map(|r| {
             let c = r.content();
@@ -132,7 +152,7 @@ fn access(entry: &str, data: &[u8], re: bool) -> bool {
             let _ = c.v4_addrs().iter().map(|a| (a.range(), a.max_length())).count();
             let _ = c.v6_addrs().iter().map(|a| (a.range(), a.max_length())).count();
             touch_cert(r.cert());
-            if re { let _ = r.to_captured().len(); let _ = r.cert().to_captured().len(); }
+            if re { let _ = r.to_captured().len(); let _ = r.cert().to_captured().len(); let _ = r.content().encode_ref().to_captured(Mode::Der).len(); reenc_cert(r.cert()); }
         }).is_ok(),
         "aspa" | "aspar" => Aspa::decode(b, entry == "aspa").map(|a| {
             let c = a.content();
@@ -140,7 +160,7 @@ fn access(entry: &str, data: &[u8], re: bool) -> bool {
             let _ = c.provider_as_set().iter().count();
             let _ = c.as_resources();
             touch_cert(a.cert());
-            if re { let _ = a.to_captured().len(); let _ = a.cert().to_captured().len(); }
+            if re { let _ = a.to_captured().len(); let _ = a.cert().to_captured().len(); let _ = a.content().encode_ref().to_captured(Mode::Der).len(); reenc_cert(a.cert()); }
         }).is_ok(),
         "rta" | "rtar" => Rta::decode(b, entry == "rta").map(|r| {
             let c = r.content();
@@ -358,7 +378,7 @@ fn systematic(orig: &[u8]) -> Vec<Vec<u8>> {
     let Some(nodes) = der::parse_nodes(orig) else { return out };
     let total = der::count_nodes(&nodes);
     for target in 0..total {
-        for opt in 0..8usize {
+        for opt in 0..13usize {
             let mut n2 = nodes.clone();
             let mut idx = target;
             let mut changed = false;
@@ -375,6 +395,10 @@ fn systematic(orig: &[u8]) -> Vec<Vec<u8>> {
                         (0x03, 7) if !c.is_empty() => Some(vec![c[0]]),
                         (0x02, 0) => Some(vec![]), (0x02, 1) => Some(vec![0x80]), (0x02, 2) => Some(vec![0, 0]),
                         (0x02, 3) => Some(vec![0x7f; 21]), (0x02, 4) => Some(vec![0xff; 2]), (0x02, 5) => Some(vec![0, 0x80]),
+                        // well-formed values at the ends of the range as well: zero, one, 127, 255, 2^159-1 and 2^159
+                        (0x02, 6) => Some(vec![0]), (0x02, 7) => Some(vec![1]), (0x02, 8) => Some(vec![0x7f]), (0x02, 9) => Some(vec![0, 0xff]),
+                        (0x02, 10) => Some(vec![0x7f; 20]), (0x02, 11) => { let mut v = vec![0u8; 21]; v[1] = 0x80; Some(v) }
+                        (0x02, 12) => Some(vec![0xff; 20]),
                         (0x01, 0) => Some(vec![]), (0x01, 1) => Some(vec![1]), (0x01, 2) => Some(vec![0, 0]),
                         (0x17 | 0x18, k) if !c.is_empty() && k < 6 => { let mut v = c.clone(); let p = (k * 5) % v.len(); v[p] = b" /+-.:"[k]; Some(v) }
                         (0x17 | 0x18, 6) => Some(vec![]),
